@@ -317,9 +317,10 @@ def run(ctx, anchors=None):
                  "%s at %s can run before the quiet&&verbose refusal" % (late[0].get("n") if late else "", main.loc(late[0]) if late else ""))
         # quiet is forced by pipe_in || pipe_out
         qdefs = [n for n in main.nodes() if n["k"] == "assign" and astq.estr(n["lhs"]) == "quiet"]
-        okq = len(qdefs) == 1 and {"pipe_in", "pipe_out"} <= {x["n"] for x in walk(qdefs[0]["rhs"]) if x["k"] == "ref"} \
-            and all(d.get("k") != "bin" or d.get("op") != "&&" for d in [qdefs[0]["rhs"]])
-        ctx.inst(okq and len(S.disjuncts(qdefs[0]["rhs"])) >= 3 if qdefs else False, "R08.4", "quiet-forced-when-piped", main.loc(qdefs[0]) if qdefs else main.loc(),
+        qrhs = astq.expand(main, qdefs[0]["rhs"], keep=("quiet", "verbose", "pipe_in", "pipe_out")) if qdefs else None
+        okq = len(qdefs) == 1 and {"pipe_in", "pipe_out"} <= {x["n"] for x in walk(qrhs) if x["k"] == "ref"} \
+            and all(d.get("k") != "bin" or d.get("op") != "&&" for d in [qrhs])
+        ctx.inst(okq and len(S.disjuncts(qrhs)) >= 3 if qdefs else False, "R08.4", "quiet-forced-when-piped", main.loc(qdefs[0]) if qdefs else main.loc(),
                  "quiet is defined as a disjunction containing pipe_in and pipe_out",
                  "quiet is no longer forced on when stdin or stdout is not a terminal")
 
